@@ -44,8 +44,17 @@ Outcomes(t, op) ==
 
 Init == tree = EmptyTree
 
+\* ---- C02: the preconditions under which every backend must behave as FsTree, and the
+\*      paths a call addresses (outside the preconditions a backend may answer differently
+\*      but must fail cleanly: no panic, nothing changed outside the addressed paths)
+Pre(t, op) == OpClimbs(op) \/ PreC(t, Canon(op, Reduce))     \* every backend refuses a climbing spelling
+\* an assumption of the check (not of the statement): a directory is not copied into itself
+Assumed(t, op) == ~(op.name \in TwoPath /\ ~OpClimbs(op) /\ IsPrefixOf(Reduce(op.sp), Reduce(op.sq)))
+Addressed(op) == {Clamp(op.sp)} \cup (IF op.name \in TwoPath THEN {Clamp(op.sq)} ELSE {})
+
 TJ(t) == { <<p, t[p]>> : p \in DOMAIN t }
-CaseJson(t, op, outs) == ToJson([k |-> "case", prev |-> TJ(t), op |-> op, outs |-> { [t |-> TJ(o.t), res |-> o.res] : o \in outs }])
+CaseJson(t, op, outs) == ToJson([k |-> "case", prev |-> TJ(t), op |-> op, outs |-> { [t |-> TJ(o.t), res |-> o.res] : o \in outs },
+                                 pre |-> Pre(t, op), assumed |-> Assumed(t, op), addr |-> Addressed(op)])
 
 \* ---- sanity theorems of the specification, per transition
 Lemmas(t, op, outs) ==
